@@ -548,6 +548,12 @@ func (c *controlConn) awaitSchemaAgreement() error {
 func (c *controlConn) close() {
 	if atomic.CompareAndSwapInt32(&c.state, controlConnStarted, controlConnClosing) {
 		verifYield("ctl.close", nil, 0)
+		// The heartbeat goroutine may be waiting for an answer on the connection - for
+		// ever, when there is no request timeout and the node has gone silent. Closing
+		// the connection first sends it back to where it takes the quit signal.
+		if ch := c.getConn(); ch != nil {
+			ch.conn.Close()
+		}
 		c.quit <- struct{}{}
 	} else {
 		// the heartbeat goroutine was started by connect but has not run yet: it gives up
